@@ -1,3 +1,5 @@
+//go:build go1.25
+
 package props
 
 // chanstep — model-based stateful testing of bigbuff.Channel inside a synctest bubble.
